@@ -64,9 +64,9 @@ CLAIMED = {
  "C27": ("exploration", "4.5, 5 C27", "seeded client sessions against the real API handler with the README as route/status specification, fake clock for token expiry",
          "Per run one API configuration (API-set subset, CSRF, header check, credentials, whitelist) and 20-60 requests over the 52 README-documented routes x 5 methods with token / Host / Origin / credential variants; whenever a stated condition fails (method not served, API set off, token missing / expired / tampered / forged / superseded, bad Host or Origin, wrong or boundary-shifted credentials) the response must carry the refusal status of one of the failing conditions (401 / 403 / 405).",
          "Two recorded known findings (superseded CSRF token still accepted; README vs. code API set of /api/v2/wallet/recover). Only the 'only if' direction is judged. Whether endpoint logic ran is inferred from the status code."),
- "C28": ("exploration", "4.5, 5 C28", "generated and mutated requests against a live simulated node",
+ "C28": ("exploration", "4.5, 5 C28", "phase 1: generated and mutated requests against a live simulated node; phase 2: concurrent client goroutines through the real handler, wallet-service lock acquisitions scheduled by the tape (hang detection)",
          "Against a real node with chain, pool, wallets and kv data, 20-80 requests per run over every documented route and method with parameters taken from live state and mutated; a panic (reported with the function it happened in), a status outside 200-599, a declared-JSON body that does not parse, or a verify answer without verdict is a violation, and afterwards the node must still list a conserved unspent set.",
-         "Requests go through httptest into the real handler, so net/http's own server loop, timeouts and connection handling are not exercised; 'hang' is detected only as a deadlock of the bubble."),
+         "Phase 2 (35 % of the budget): 2-4 client goroutines send scripted wallet / balance / inject requests at the same time; every acquisition of the wallet service lock (hook H9: RWMutex semantics with durable blocking) and every gap between requests is a tape-chosen scheduling point; a request that never returns is a violation (needs reproduction in a fresh process to be reported). Only the wallet service lock is a scheduling point: interleavings inside the visor, bolt or the daemon gateway are not explored. Requests go through httptest into the real handler, so net/http's own server loop, timeouts and connection handling are not exercised; 'hang' is detected only as a deadlock of the bubble."),
  "C32": ("exploration", "4.2, 5 C32", "real pool goroutines under a tape-driven yield scheduler with the Go race detector (deterministic simulation with fault injection)",
          "The real ConnectionPool (Run and its accept loop, the strand goroutine, handleConnection with its read / send / receive loops, Connect, Shutdown) runs as real goroutines on simulated connections inside a synctest bubble, built with -race; every goroutine parks at yield points (top of every Strand call, every simulated network operation, every callback and handler, sendLoop's spin on a closed queue) and the choice tape decides who proceeds or whether the fake clock advances. 2-4 callers issue the public operations while peers write, split, stall, misbehave, close and reset and one goroutine calls Shutdown at a tape-chosen moment (sometimes before the pool listens). Checked: no race report; every call returns success, the pool-closed error or a documented error of that call; calls started after Shutdown returned get the pool-closed error; Shutdown and Run return; all five registries empty; every connection handed to the pool closed; no pool goroutine left; connect/disconnect callbacks pair up; peers only receive well-formed frames; per-connection delivery order. The park/release protocol uses no channel, mutex or atomic (norace memory + sleeping on the fake clock), so the scheduler itself adds no happens-before edge that could hide a race.",
          "Which case a select with several ready cases takes is the Go runtime's choice and is not controlled: schedules are replayed from the tape, violations that depend on that choice reproduce in a fraction of replays (the replay file records it, replay retries up to 10 times). Oracles only flag outcomes that are wrong under every resolution. The daemon above the pool is not part of these runs (callbacks and the message handler are harness code that never blocks). Race detection is the Go race detector's (happens-before, bounded history)."),
